@@ -449,6 +449,18 @@ func RuleU3(c *Ctx) {
 			if dst.Low != nil {
 				k, isK := core.ConstInt(dst.Low)
 				if !isK {
+					// the count an earlier copy returned: the length of its (whole-array) source, when the
+					// destination is at least that long
+					if pc, isCopy := core.StripConv(dst.Low).(*ssa.Call); isCopy {
+						if b, isB := pc.Call.Value.(*ssa.Builtin); isB && b.Name() == "copy" {
+							srcLen, dstLen := sliceConstLen(pc.Call.Args[1]), sliceConstLen(pc.Call.Args[0])
+							if srcLen > 0 && dstLen >= srcLen {
+								k, isK = srcLen, true
+							}
+						}
+					}
+				}
+				if !isK {
 					ok = false
 					continue
 				}
@@ -1145,6 +1157,44 @@ func RuleB1(c *Ctx) {
 	reg := callsTo(cb, "bandersnatch/fr", "Element", "ToBigIntRegular")
 	mont := callsTo(cb, "bandersnatch/fr", "Element", "ToBigInt")
 	ok := len(reg) == 1 && len(mont) == 0
+	if tr := callsTo(cb, "bandersnatch/fr", "Element", "ToRegular"); len(reg) == 0 && len(mont) == 0 && len(tr) == 1 {
+		// the same value without the big.Int: limb 0 of evalPoint.ToRegular() (the point is below 256 on this path)
+		okLimb := false
+		core.AllInstrs(cb, func(i ssa.Instruction) {
+			st, isSt := i.(*ssa.Store)
+			if !isSt {
+				return
+			}
+			ia, isIA := st.Addr.(*ssa.IndexAddr)
+			if !isIA {
+				return
+			}
+			ld, isLd := core.StripConv(ia.Index).(*ssa.UnOp)
+			if !isLd || ld.Op != token.MUL {
+				return
+			}
+			limb, isLimb := ld.X.(*ssa.IndexAddr)
+			if !isLimb {
+				return
+			}
+			if k, isK := core.ConstInt(limb.Index); !isK || k != 0 {
+				return
+			}
+			cell, isCell := limb.X.(*ssa.Alloc)
+			if !isCell {
+				return
+			}
+			sts := storesInto(cell)
+			if len(sts) != 1 || sts[0].Val != ssa.Value(tr[0]) {
+				return
+			}
+			if one, isOne := st.Val.(*ssa.Call); isOne && core.IsFunc(core.Callee(one.Common()), "bandersnatch/fr", "One") {
+				okLimb = core.PathOf(tr[0].Call.Args[0]) == "*(&p:evalPoint)" || core.PathOf(tr[0].Call.Args[0]) == "&p:evalPoint" || core.PathOf(tr[0].Call.Args[0]) == "p:evalPoint"
+			}
+		})
+		c.Check(okLimb, "B1", "computeBVector:unit-vector-index", cb.Pos(), "the in-domain unit vector is not b[regular-form value of evalPoint] = 1", "b[evalPoint.ToRegular()[0]] = fr.One()")
+		return
+	}
 	if ok {
 		ok = false
 		core.AllInstrs(cb, func(i ssa.Instruction) {
@@ -1234,4 +1284,36 @@ func RuleP1(c *Ctx) {
 		}
 		c.Check(ok, "P1", "NewPrecompMSM:table-i-from-point-i", pm.Pos(), "table i is not built from basis point i", "precompPoints[i] = NewPrecompPoint(points[i], w)")
 	}
+}
+
+// sliceConstLen: the constant length of arr[:] / arr[lo:hi] over a local array, or -1.
+func sliceConstLen(v ssa.Value) int64 {
+	sl, ok := v.(*ssa.Slice)
+	if !ok {
+		return -1
+	}
+	pt, isP := sl.X.Type().Underlying().(*types.Pointer)
+	if !isP {
+		return -1
+	}
+	at, isA := pt.Elem().Underlying().(*types.Array)
+	if !isA {
+		return -1
+	}
+	lo, hi := int64(0), at.Len()
+	if sl.Low != nil {
+		k, isK := core.ConstInt(sl.Low)
+		if !isK {
+			return -1
+		}
+		lo = k
+	}
+	if sl.High != nil {
+		k, isK := core.ConstInt(sl.High)
+		if !isK {
+			return -1
+		}
+		hi = k
+	}
+	return hi - lo
 }
